@@ -1021,4 +1021,224 @@ theorem release_loop (hν : Function.Injective ν) : ∀ (l : List String) (vm v
         · simp only [List.map_cons, stopActions, hs1]; exact hs3
         · rw [habs2, ← hso]
 
+/-! ### the index component: `heads.clear()` and `flow_state.status = st` -/
+
+theorem rawRemove_insts (s : IState) (k : Key) : (rawRemove s k).insts = s.insts := by
+  unfold rawRemove; split <;> rfl
+
+theorem foldl_rawRemove_insts (f : FUid) : ∀ (l : List Head) (s : IState),
+    (l.foldl (fun acc hd => rawRemove acc (f, hd.uid)) s).insts = s.insts
+  | [], _ => rfl
+  | hd :: l, s => by
+    simp only [List.foldl_cons]
+    rw [foldl_rawRemove_insts f l, rawRemove_insts]
+
+theorem findInst_modifyInst (s : IState) (f f' : FUid) (g : Inst → Inst) (hg : ∀ i, (g i).uid = i.uid) :
+    findInst (modifyInst s f g) f' = (findInst s f').map fun i => if i.uid = f then g i else i := by
+  unfold findInst modifyInst
+  simp only
+  induction s.insts with
+  | nil => rfl
+  | cons i l ih =>
+    simp only [List.map_cons, List.find?_cons]
+    by_cases hi : i.uid = f
+    · simp only [hi, if_true]
+      by_cases hf : f = f'
+      · subst hf
+        have : (g i).uid = f := by rw [hg]; exact hi
+        simp [this, hi]
+      · have : ¬ (g i).uid = f' := by rw [hg, hi]; exact hf
+        simp only [this, decide_false, hf]
+        exact ih
+    · simp only [hi, if_false]
+      by_cases hf : i.uid = f'
+      · have hff : ¬ f' = f := fun e => hi (hf.trans e)
+        simp [hf, hff]
+      · simp only [hf, decide_false]
+        exact ih
+
+theorem findInst_dropHeads (s : IState) (f f' : FUid) :
+    findInst (step s (.dropHeads f)) f' = (findInst s f').map fun i => if i.uid = f then { i with heads := [] } else i := by
+  simp only [step]
+  cases h : findInst s f with
+  | none =>
+    simp only
+    -- no instance `f`: nothing changes, and no instance has uid `f`
+    cases h' : findInst s f' with
+    | none => rfl
+    | some i =>
+      simp only [Option.map_some]
+      have : i.uid ≠ f := by
+        intro e
+        unfold findInst at h h'
+        have hi := List.find?_some h'
+        simp only [decide_eq_true_eq] at hi
+        rw [← e, hi] at h
+        rw [h'] at h; cases h
+      simp [this]
+  | some i0 =>
+    simp only
+    have : findInst (modifyInst (i0.heads.foldl (fun acc hd => rawRemove acc (f, hd.uid)) s) f fun i => { i with heads := [] }) f' =
+        (findInst (i0.heads.foldl (fun acc hd => rawRemove acc (f, hd.uid)) s) f').map fun i => if i.uid = f then { i with heads := [] } else i :=
+      findInst_modifyInst _ f f' _ (fun _ => rfl)
+    rw [this]
+    unfold findInst
+    rw [foldl_rawRemove_insts]
+
+theorem findInst_setFlowStatus (s : IState) (f f' : FUid) (st : FlowStatus) :
+    findInst (step s (.setFlowStatus f st)) f' = (findInst s f').map fun i => if i.uid = f then { i with status := st } else i := by
+  simp only [step]
+  exact findInst_modifyInst s f f' _ (fun _ => rfl)
+
+/-- `find?` returns an element satisfying the predicate: the instance found for `f'` has uid `f'` -/
+theorem findInst_uid (s : IState) (f' : FUid) (i : Inst) (h : findInst s f' = some i) : i.uid = f' := by
+  unfold findInst at h
+  have := List.find?_some h
+  simpa using this
+
+/-- the state after a guarded index operation -/
+theorem applyOp_run (op : Op) (vm : VM) (hg : op.guard vm.ixs.ix = true) :
+    CoreVM.applyOp op vm = .ok () { vm with ixs := vm.ixs.apply op hg } := by
+  unfold CoreVM.applyOp
+  simp only [hg, dite_true]
+
+/-- `for head in heads.values(): _remove_head…; heads.clear()` IS `heads := 0` on the abstract state -/
+theorem dropHeads_refines (hν : Function.Injective ν) (f : FUid) (vm : VM) :
+    ∃ vm', CoreVM.dropHeads f vm = .ok () vm' ∧ vm'.r.fx = vm.r.fx ∧ vm'.r.actions = vm.r.actions ∧
+      (absVM ν φ vm').flows = (modFlow (absVM ν φ vm) (ν f) fun fl => { fl with heads := 0 }).flows := by
+  have hg : (Op.dropHeads f).guard vm.ixs.ix = true := rfl
+  refine ⟨{ ({ vm with ixs := vm.ixs.apply (.dropHeads f) hg } : VM) with
+      r := { vm.r with hx := vm.r.hx.filter (fun e => e.1.1 ≠ f),
+                       cleared := vm.r.cleared ++ (match findInst vm.ixs.ix f with
+                         | some i => i.heads.map fun hd => (f, hd.uid)
+                         | none => []) } }, ?_, rfl, rfl, ?_⟩
+  · unfold CoreVM.dropHeads
+    simp only [bind, EStateM.bind]
+    have : getIx vm = .ok vm.ixs.ix vm := rfl
+    rw [this]
+    simp only [applyOp_run _ vm hg]
+    rfl
+  · funext n
+    by_cases hn : ∃ k, ν k = n
+    · obtain ⟨k, rfl⟩ := hn
+      rw [absVM_flows ν φ hν]
+      show (OMap.lookup k vm.r.fx).map _ = _
+      by_cases hk : k = f
+      · subst hk
+        cases hx : OMap.lookup k vm.r.fx with
+        | none =>
+          have : (absVM ν φ vm).flows (ν k) = none := by rw [absVM_flows ν φ hν, hx]; rfl
+          rw [modFlow_none _ _ _ this, this]; rfl
+        | some x =>
+          have : (absVM ν φ vm).flows (ν k) = some (absFlow ν φ vm k x) := by rw [absVM_flows ν φ hν, hx]; rfl
+          rw [modFlow_some _ _ _ _ this, setFlow_flows_same]
+          simp only [Option.map_some, absFlow]
+          have hfi : findInst (step vm.ixs.ix (.dropHeads k)) k = (findInst vm.ixs.ix k).map fun i => if i.uid = k then { i with heads := [] } else i :=
+            findInst_dropHeads _ k k
+          show some _ = some _
+          congr 1
+          show ({ flowId := _, parent := _, children := _, status := _, activated := _, nis := _, actionUids := _, scopes := _, heads := _, isMain := _ } : Flow) = _
+          simp only [IxS.apply, hfi]
+          cases hi : findInst vm.ixs.ix k with
+          | none => rfl
+          | some i =>
+            have := findInst_uid _ _ _ hi
+            simp [this]
+      · have hne : ν k ≠ ν f := fun e => hk (hν e)
+        rw [modFlow_flows_ne _ _ _ _ hne, absVM_flows ν φ hν]
+        cases hx : OMap.lookup k vm.r.fx with
+        | none => rfl
+        | some x =>
+          simp only [Option.map_some, absFlow]
+          have hfi : findInst (step vm.ixs.ix (.dropHeads f)) k = (findInst vm.ixs.ix k).map fun i => if i.uid = f then { i with heads := [] } else i :=
+            findInst_dropHeads _ f k
+          congr 1
+          show ({ flowId := _, parent := _, children := _, status := _, activated := _, nis := _, actionUids := _, scopes := _, heads := _, isMain := _ } : Flow) = _
+          simp only [IxS.apply, hfi]
+          cases hi : findInst vm.ixs.ix k with
+          | none => rfl
+          | some i =>
+            have := findInst_uid _ _ _ hi
+            have hne' : ¬ i.uid = f := by rw [this]; exact hk
+            simp [hne']
+    · have hnone : ∀ (vm' : VM), (absVM ν φ vm').flows n = none := by
+        intro vm'
+        simp only [absVM]
+        rw [List.find?_eq_none.2 (fun e _ => by simpa using fun h => hn ⟨e.1, h⟩)]
+        rfl
+      have hne : n ≠ ν f := fun e => hn ⟨f, e.symm⟩
+      rw [hnone, modFlow_flows_ne _ _ _ _ hne, hnone]
+
+/-- `flow_state.status = st` (index operation + `status_updated`) IS `status := st` on the abstract state, whenever the
+    index guard of the operation holds (otherwise CoreVM stops with `guardFailed`: not a Python exception) -/
+theorem setFlowStatus_refines (hν : Function.Injective ν) (f : FUid) (st : FlowStatus) (vm : VM)
+    (hg : (Op.setFlowStatus f st).guard vm.ixs.ix = true) (hfi : ∃ i, findInst vm.ixs.ix f = some i) :
+    ∃ vm', CoreVM.setFlowStatus f st vm = .ok () vm' ∧ vm'.r.fx.map (·.1) = vm.r.fx.map (·.1) ∧ vm'.r.actions = vm.r.actions ∧
+      (absVM ν φ vm').flows = (modFlow (absVM ν φ vm) (ν f) fun fl => { fl with status := absStatus st }).flows := by
+  obtain ⟨vm1, hvm1⟩ : ∃ vm1 : VM, vm1 = { vm with ixs := vm.ixs.apply (.setFlowStatus f st) hg } := ⟨_, rfl⟩
+  refine ⟨vmMod vm1 f (fun x => { x with statusUpdated := vm1.r.clock }), ?_, ?_, by rw [hvm1]; rfl, ?_⟩
+  · unfold CoreVM.setFlowStatus
+    simp only [bind, EStateM.bind, applyOp_run _ vm hg]
+    rw [hvm1]
+    rfl
+  · rw [hvm1]
+    show (OMap.modify f _ vm.r.fx).map (·.1) = _
+    induction vm.r.fx with
+    | nil => rfl
+    | cons e l ih =>
+      simp only [OMap.modify]
+      split <;> simp [ih]
+  · funext n
+    have hfis : ∀ k, findInst vm1.ixs.ix k = (findInst vm.ixs.ix k).map fun i => if i.uid = f then { i with status := st } else i := by
+      intro k; rw [hvm1]; exact findInst_setFlowStatus _ f k st
+    by_cases hn : ∃ k, ν k = n
+    · obtain ⟨k, rfl⟩ := hn
+      rw [absVM_flows ν φ hν]
+      have hl : OMap.lookup k (vmMod vm1 f fun x => { x with statusUpdated := vm1.r.clock }).r.fx =
+          if k = f then (OMap.lookup k vm1.r.fx).map (fun x => { x with statusUpdated := vm1.r.clock }) else OMap.lookup k vm1.r.fx :=
+        lookup_modify f k _ vm1.r.fx
+      have hfx1 : vm1.r.fx = vm.r.fx := by rw [hvm1]
+      rw [hl, hfx1]
+      by_cases hk : k = f
+      · subst hk
+        simp only [if_true]
+        cases hx : OMap.lookup k vm.r.fx with
+        | none =>
+          have : (absVM ν φ vm).flows (ν k) = none := by rw [absVM_flows ν φ hν, hx]; rfl
+          rw [modFlow_none _ _ _ this, this]; rfl
+        | some x =>
+          have : (absVM ν φ vm).flows (ν k) = some (absFlow ν φ vm k x) := by rw [absVM_flows ν φ hν, hx]; rfl
+          rw [modFlow_some _ _ _ _ this, setFlow_flows_same]
+          simp only [Option.map_some, absFlow]
+          obtain ⟨i, hi⟩ := hfi
+          have hu := findInst_uid _ _ _ hi
+          have h1 : findInst (vmMod vm1 k fun x => { x with statusUpdated := vm1.r.clock }).ixs.ix k = some { i with status := st } := by
+            show findInst vm1.ixs.ix k = _
+            rw [hfis, hi]; simp [hu]
+          simp only [h1, hi]
+      · simp only [hk, if_false]
+        have hne : ν k ≠ ν f := fun e => hk (hν e)
+        rw [modFlow_flows_ne _ _ _ _ hne, absVM_flows ν φ hν]
+        cases hx : OMap.lookup k vm.r.fx with
+        | none => rfl
+        | some x =>
+          simp only [Option.map_some, absFlow]
+          have h1 : findInst (vmMod vm1 f fun x => { x with statusUpdated := vm1.r.clock }).ixs.ix k = findInst vm.ixs.ix k := by
+            show findInst vm1.ixs.ix k = _
+            rw [hfis]
+            cases hi : findInst vm.ixs.ix k with
+            | none => rfl
+            | some i =>
+              have := findInst_uid _ _ _ hi
+              have hne' : ¬ i.uid = f := by rw [this]; exact hk
+              simp [hne']
+          simp only [h1]
+    · have hnone : ∀ (vm' : VM), (absVM ν φ vm').flows n = none := by
+        intro vm'
+        simp only [absVM]
+        rw [List.find?_eq_none.2 (fun e _ => by simpa using fun h => hn ⟨e.1, h⟩)]
+        rfl
+      have hne : n ≠ ν f := fun e => hn ⟨f, e.symm⟩
+      rw [hnone, modFlow_flows_ne _ _ _ _ hne, hnone]
+
 end NemoVerif.Lifetime.Refine
